@@ -97,7 +97,7 @@ impl Prop for C13 {
         tier.pick(16, 240)
     }
     fn mandatory(&self, tier: Tier) -> Vec<String> {
-        let mut v: Vec<String> = ["sector:512", "sector:4096", "chain:Sequential", "chain:Reversed", "chain:Random", "mini:Reversed", "mini:Random", "meta:Front", "meta:Back", "meta:Scattered", "free_sectors", "dir_shuffled", "dir_holes", "overallocated_chains", "v3_size_high_dword_garbage", "dir_name_tail_garbage", "name_differing_only_in_case", "mini_stream", "no_mini_stream", "xls_workbook_via_layout", "xls_with_vba_via_layout", "size:0", "size:4095", "size:4096", "size:4097"]
+        let mut v: Vec<String> = ["sector:512", "sector:4096", "chain:Sequential", "chain:Reversed", "chain:Random", "mini:Reversed", "mini:Random", "meta:Front", "meta:Back", "meta:Scattered", "free_sectors", "dir_shuffled", "dir_holes", "overallocated_chains", "v3_size_high_dword_garbage", "dir_name_tail_garbage", "name_differing_only_in_case", "mini_stream", "no_mini_stream", "xls_workbook_via_layout", "xls_with_vba_via_layout", "book_and_workbook_streams", "size:0", "size:4095", "size:4096", "size:4097"]
             .iter().map(|s| s.to_string()).collect();
         let _ = tier;
         v.push("difat_sectors".into());
@@ -169,6 +169,13 @@ impl Prop for C13 {
                 let cc = if k == 0 { CfbChoices::default() } else { CfbChoices::random(&mut rng) };
                 let mut cc = cc;
                 let mut more = if rng.bool() { vec![Entry::stream("\u{5}SummaryInformation", stream_bytes(&mut rng, 300, 3))] } else { vec![] };
+                if rng.chance(1, 3) {
+                    // a dual-format container: a `Book` (BIFF5) stream next to `Workbook`, which wins
+                    // wherever the two entries sit in the directory
+                    more.push(Entry::stream("Book", stream_bytes(&mut rng, 1500, 5)));
+                    cc.shuffle_dir = true;
+                    out.feat("book_and_workbook_streams");
+                }
                 // every other workbook carries a VBA project whose module stream lives in regular
                 // sectors (>= 4096 bytes): the reader fetches it before the Workbook stream
                 let module_src: Option<Vec<u8>> = (i % 2 == 1).then(|| (0..6000).map(|j| b'a' + ((j * 7 + i as usize) % 23) as u8).collect());
